@@ -137,11 +137,20 @@ def random_run(rng: random.Random, nsteps: int, prof: Profile | None = None):
         return w
 
 
-def replay(ops: list[int]):
+def replay(ops: list[int], tolerant: bool = False):
+    """Re-executes a stored op list.  With tolerant=True the replay stops at the first op the implementation can no
+    longer perform (w.incomplete is set) instead of raising."""
     w = S.SWorld()
+    w.incomplete = None
     with w:
         for i in range(0, len(ops), 4):
-            w.do(*ops[i:i + 4])
+            try:
+                w.do(*ops[i:i + 4])
+            except (AssertionError, IndexError, KeyError, ValueError, StopIteration, AttributeError) as e:
+                if not tolerant:
+                    raise
+                w.incomplete = (i // 4, repr(e))
+                break
         return w
 
 
